@@ -167,3 +167,18 @@ HARNESSES = [
     _h("c17_env_key", lambda ctx, tier, seed: h_keys(ctx, tier, seed, "env"), "one environment entry whose name is every identifier of 1..3 characters"),
     _h("c17_param_collision", h_collision, "two parameters with distinct 2-character names"),
 ]
+
+
+# ---- the IR shipped for a transaction is the IR lowering produced for it --------------------------
+
+def h_workspace_ir(ctx, tier, seed):
+    """`tx3c` takes each transaction's IR from `Workspace::tir(name)`: the helper binary of C01 runs the
+    real front end on a program with two transactions whose names differ only in case and compares,
+    per transaction, the facade's IR with `lowering::lower(ast, name)`; the IR of `t` is then compiled
+    from MIR and compared with the denotation of *its* body"""
+    from harness import c01
+    c01._mk("p20_two_txs_by_case")(ctx, tier, seed)
+
+
+HARNESSES.append(_h("c17_workspace_ir_per_tx", h_workspace_ir, "corpus program p20 (transactions `t` and `T`) in 3 layouts: Workspace::tir vs lowering::lower per transaction; values symbolic",
+                    crates=["tx3-tir", "tx3-cardano"], time_limit=900))
